@@ -48,7 +48,9 @@ Theorem catalog_table_columns e rel t qt :
   map attrs (qt_cols qt) = map (fun c => (data_type (col_type c), col_notnull c, col_array c)) (tab_cols t)
   /\ map qc_name (qt_cols qt) = map col_name (tab_cols t).
 Proof.
-  unfold qc_get_table. cbn [assoc]. intros Ht. rewrite Ht. intros H. inversion H; subst. cbn [qt_cols].
+  unfold qc_get_table. cbn [assoc]. intros Ht.
+  assert (Hn : (if String.eqb (tn_schema rel) "" then None else None) = @None qtable) by (destruct (String.eqb _ ""); reflexivity).
+  rewrite Hn, Ht. intros H. inversion H; subst. cbn [qt_cols].
   rewrite !map_map. split; apply map_ext; intros c; reflexivity.
 Qed.
 
